@@ -93,13 +93,13 @@ def configs(tier):
                 dict(dut="layer", mode="macro", kinds="m", menu=[2, 89, 177], depth=8, scramble=1),
                 dict(dut="layer", mode="macro", kinds="z", menu=[1, 87, 265], depth=8, scramble=1)]
     return [dict(dut="replica", mode="cycle", kinds="dmzkc", maxrun=16, scramble=1),
-            dict(dut="replica", mode="cycle", kinds="dc", maxrun=255, scramble=1),
+            dict(dut="replica", mode="cycle", kinds="dc", maxrun=511, scramble=1),
             dict(dut="replica", mode="cycle", kinds="dzc", maxrun=8, scramble=0),
             dict(dut="replica", mode="cycle", kinds="mzc", maxrun=8, scramble=1, max_owed=7),
-            dict(dut="layer", mode="macro", kinds="d", menu=[1, 2, 3, 88, 89], depth=20, scramble=1),
-            dict(dut="layer", mode="macro", kinds="m", menu=[1, 87, 177, 266], depth=20, scramble=1),
-            dict(dut="layer", mode="macro", kinds="dz", menu=[1, 88, 178], depth=18, scramble=1),
-            dict(dut="layer", mode="macro", kinds="k", menu=[3, 90, 264], depth=18, scramble=0)]
+            dict(dut="layer", mode="macro", kinds="d", menu=[1, 2, 3, 88, 89], depth=26, scramble=1),
+            dict(dut="layer", mode="macro", kinds="m", menu=[1, 87, 177, 266], depth=24, scramble=1),
+            dict(dut="layer", mode="macro", kinds="dz", menu=[1, 88, 178], depth=24, scramble=1),
+            dict(dut="layer", mode="macro", kinds="k", menu=[3, 90, 264], depth=24, scramble=0)]
 
 
 def make_replica():
